@@ -188,7 +188,8 @@ export class RangeListManager {
       allowFastComparison = true
     } else {
       let needUpdate = false
-      if (isSpliceUpdate) {
+      if (isSpliceUpdate || indexes !== null) {
+        // (the tree of an object list is keyed by field names: it is made positional below)
         needUpdate = true
       } else {
         const keys = Object.keys(oriUpdatePathTree)
@@ -211,10 +212,9 @@ export class RangeListManager {
           if (oldSharedKeyMap?.[k] !== undefined || newSharedKeyMap?.[k] !== undefined) {
             updatePathTree[i] = true
           } else {
-            const subTree = (oriUpdatePathTree as { [s: string]: UpdatePathTreeNode })[i] as
-              | { [s: string]: UpdatePathTreeNode }
-              | undefined
-              | true
+            const subTree = (oriUpdatePathTree as { [s: string]: UpdatePathTreeNode })[
+              indexes === null ? i : indexes[i]!
+            ] as { [s: string]: UpdatePathTreeNode } | undefined | true
             if (subTree === undefined) {
               // empty
             } else if (subTree === true || (keyName === '*this' ? subTree : subTree?.[keyName])) {
